@@ -94,32 +94,62 @@ def run(ctx):
              'the error of %s is reported as ChannelError::%s wrapping that error' % (meth, want), [f.loc(t)], 'found %s' % [v for v, _, _, _ in got])
 
     # ------------------------------------------------------------------ variant-preserving conversions
-    conv = [f for f in F.fns.values() if f.impl_of and f.impl_of.get('self_head') == 'ChannelError' and any(True for _ in f.aggregates('ChannelError'))]
-    n = 0
+    ce_variants = [v['name'] for v in F.adts['ChannelError']['variants']]
+    # local fieldless "tag" enums with the same variant names as ChannelError (a refactoring may route conversions through one)
+    tag_enums = {p_ for p_, a_ in F.adts.items() if a_['kind'] == 'Enum' and p_.split('::')[-1] != 'ChannelError'
+                 and sorted(v['name'] for v in a_['variants']) == sorted(ce_variants) and all(not v['fields'] for v in a_['variants'])}
+    is_tagged = lambda adt: adt == 'ChannelError' or adt in tag_enums or any(adt.endswith('::' + t_.split('::')[-1]) or t_.endswith('::' + adt) for t_ in tag_enums)
+    conv = [f for f in F.fns.values() if f.impl_of and f.impl_of.get('self_head') == 'ChannelError' and not F.is_derived(f)]
+    arms_in = {}
     for f in conv:
-        for i, j, s in f.aggregates('ChannelError'):
-            if s['rv']['adt'] != 'ChannelError':
+        arms_in[f.id] = 0
+        # the value switched on: the function's ChannelError (or tag) parameter
+        def pred(x, f=f):
+            return any(r[0] == 'param' and r[1] == f.id and (('ChannelError' in f.local_ty(r[2])) or any(t_.split('::')[-1] in f.local_ty(r[2]) for t_ in tag_enums)) for r, _ in P.root(x))
+        for i, j, s in f.stmts():
+            rv = s['rv']
+            if rv['k'] != 'agg' or not rv.get('variant') or rv['variant'] not in ce_variants or not is_tagged(rv.get('adt') or ''):
                 continue
-            v = s['rv']['variant']
-            pred = lambda x: any(r == ('param', f.id, 1) for r, _ in P.root(x))
-            n += 1
-            R.ob('C09.conv', ('ChannelError::' + f.npath.split('::')[-1], v), bool(guarded_by_variant(F, P, f, i, pred, [v])),
+            v = rv['variant']
+            if rv['adt'] == 'ChannelError':
+                arms_in[f.id] += 1
+            R.ob('C09.conv', ('ChannelError::' + f.npath.split('::')[-1], rv['adt'].split('::')[-1], v), bool(guarded_by_variant(F, P, f, i, pred, [v])),
                  '%s keeps the activity tag (%s stays %s)' % (f.npath.split('::')[-1], v, v), [f.loc(s)])
-    # conversions written with constructor functions as values (`.map(Ready).map_err(Ready)`)
-    for f in F.fns.values():
-        if not (f.impl_of and f.impl_of.get('self_head') == 'ChannelError'):
-            continue
+        # conversions written with constructor functions as values (`.map(Ready).map_err(Ready)`)
         for bb, t in f.calls():
             if callee_is(t, 'Result::map', 'Result::map_err', 'Option::map') and len(t['args']) > 1 and t['args'][1].get('k') == 'const':
                 fnp = t['args'][1].get('fn') or ''
                 if 'ChannelError::' in fnp:
                     v = fnp.split('::')[-1]
-                    pred = lambda x: any(r == ('param', f.id, 1) for r, _ in P.root(x))
-                    n += 1
+                    arms_in[f.id] += 1
                     R.ob('C09.conv', ('ChannelError::' + f.npath.split('::')[-1], v, strip_generics(t['callee']).split('::')[-1]), bool(guarded_by_variant(F, P, f, bb, pred, [v])),
                          '%s keeps the activity tag (%s stays %s)' % (f.npath.split('::')[-1], v, v), [f.loc(t)])
-    if n < 25:
-        raise CannotDecide('only %d ChannelError conversion arms found (floor 25)' % n)
+    # every conversion entry point rebuilds the error arm by arm, itself or through private helpers of the type: each reaches a construction per variant
+    entry = [f for f in conv if (f.vis or '').startswith('Public') or 'DefId(0:0 ~' in (f.vis or '') or (f.impl_of.get('trait') or '').endswith('Clone')]   # pub / pub(crate) / Clone
+    n_entry = 0
+    for f in entry:
+        rets = str(f.local_ty(0))
+        if 'ChannelError' not in rets:
+            continue
+        n_entry += 1
+        reach_ = [g for g in reachable_local_fns(F, f, depth=3) if g.id in arms_in]
+        total = sum(arms_in[g.id] for g in reach_)
+        R.ob('C09.conv', ('ChannelError::' + f.npath.split('::')[-1], 'rebuilds every variant'), total >= len(ce_variants),
+             'the conversion constructs its result per variant (directly or through a private helper), each construction checked above', [f.loc(f.d)], 'constructions reachable: %d' % total)
+        # a tag handed to a helper is one computed from the error, not a constant
+        for g in reach_:
+            for bb, t in g.calls():
+                h = F.callee_fn(t)
+                if h is None or h.id not in arms_in:
+                    continue
+                for k_, a_ in enumerate(t['args']):
+                    if any(t_.split('::')[-1] in h.local_ty(k_ + 1) for t_ in tag_enums):
+                        rs_ = P.root(P.operand(g, a_, at=bb), inline=False)
+                        okt = bool(rs_) and all(P.unbound(x)[0] in ('call', 'param') for x, _ in rs_)
+                        R.ob('C09.conv', ('ChannelError::' + g.npath.split('::')[-1], 'tag passed on is the one taken from the error'), okt,
+                             'the activity tag given to the rebuilding helper comes from the error being converted (not a constant)', [g.loc(t)])
+    if n_entry < 3:
+        raise CannotDecide('only %d ChannelError conversion entry points found (floor 3)' % n_entry)
 
     # ------------------------------------------------------------------ per-request send failure
     poll = client_dispatch_poll(F)
